@@ -106,10 +106,22 @@ class E3:
             e3.rec("C16", key + ":table-not-detached", not det,
                    "at the %s call `%s` in %s: the table that backs the linked entries is still the cache's table (not handed to a "
                    "local whose destructor would free it on unwind)%s" % (c.user_kind, c.callee, fr.body.path, (": " + det) if det else ""), c.loc)
+            # C01 over histories with caught panics: an unwind out of this call ends the operation here; every later operation that
+            # returns must still see current_size <= max_size, so the bound has to hold at every point where user code runs
+            # (exempt: user code run by `mutate` after the closure has returned -- the value has already grown, so the honest total
+            #  exceeds the limit until the ejection is complete; C02 and C01 cannot both hold there and C16 promises the bound only
+            #  for a panic of the closure itself)
+            if not (ep_name == "mutate" and e3._closure_done(ip_)):
+                e3.check("C01", key + ":bound-at-unwind-point", st, [le(cf["CS"], cf["MS"])],
+                         "at the %s call `%s` in %s (a panic here unwinds and the cache stays in use): current_size <= max_size"
+                         % (c.user_kind, c.callee, fr.body.path), c.loc)
             if c.user_kind == "closure" and closure_bound:
                 e3.check("C16", key + ":CS<=MS", st, [le(cf["CS"], cf["MS"])],
                          "at the user closure call in %s: the memory bound holds (a panic in the closure leaves it intact)" % fr.body.path, c.loc)
         ip.hooks["user_call"] = on_user_call
+
+    def _closure_done(self, ip):
+        return any(k == "user_call" and info.get("kind") == "closure" for (k, info) in ip.events)
 
     def detached(self, ip, st):
         """the original table (tid 0) is no longer installed in the cache while a local still holds its entries"""
@@ -268,6 +280,11 @@ class E3:
             self.rec("C07", "%s:exit[%s]:no-write-through-stale-handle" % (name, sig), not sw,
                      "on the way to `%s` returning %s nothing was written through a handle to an entry that may already have left its table "
                      "(removed, evicted or relocated)" % (name, sig), loc, {"fields": sorted(sw)} if sw else None)
+            rel = ip.gset(s, "relinked")
+            for pr_ in ("C05", "C07"):
+                self.rec(pr_, "%s:exit[%s]:spliced-nodes-were-unlinked" % (name, sig), not rel,
+                         "on the way to `%s` returning %s every node spliced into the list had been taken out of it before (or was new)"
+                         % (name, sig), loc, {"what": sorted(rel)} if rel else None)
             l2l = ip.gset(s, "l2l")
             self.rec("C07", "%s:exit[%s]:no-link-into-unowned-table" % (name, sig), not l2l,
                      "when `%s` returns %s no link points into a table the cache does not own" % (name, sig), loc)
@@ -380,6 +397,12 @@ class E3:
                 pend = ip.gset(st, "pending")
                 self.rec("C03", "%s:promote-before-eviction@%s" % (name, chain), not pend,
                          "in mutate the mutated entry has been made most-recently-used before anything is evicted (it cannot evict itself)", info["loc"])
+                prom = [m for m in ip.gset(st, "promoted") if isinstance(m, tuple) and m and m[0] == "E"]
+                spared = bool(prom) and all(m in (info.get("distinct") or ()) for m in prom)
+                self.rec("C03", "%s:spares-mutated-entry@%s" % (name, chain), spared or bool(pend),
+                         "the entry ejected here during mutate is never the mutated entry itself: when the least-recently-used entry is reached "
+                         "the numeric state excludes that it is the (promoted) mutated one, i.e. that it is alone in the list and "
+                         "current_size still exceeds the target", info["loc"])
             if name == "insert":
                 size = self.incoming_size(ip, st, arg_vals)
                 if size is None:
@@ -389,8 +412,11 @@ class E3:
                 cons = [gt(cf["CS"] + size, cf["MS"])]
                 desc = "an entry is evicted during insert only while current_size + entry_size(new) > max_size"
             elif name == "mutate":
-                cons = [gt(cf["CS"], cf["MS"])]
-                desc = "an entry is evicted during mutate only while current_size (including the growth) > max_size"
+                # growth of the mutated entry that is not yet part of current_size: its size as measured now minus its recorded size
+                # (0 once the entry's size field has been rewritten)
+                pend_growth = self.unaccounted_growth(ip, st)
+                cons = [gt(cf["CS"] + pend_growth, cf["MS"])]
+                desc = "an entry is evicted during mutate only while current_size (including the growth of the mutated entry) > max_size"
             else:
                 lim = arg_vals[1][1] if len(arg_vals) > 1 and is_int(arg_vals[1]) else None
                 if lim is None:
@@ -399,6 +425,20 @@ class E3:
                 cons = [gt(cf["CS"], lim)]
                 desc = "an entry is evicted during set_max_size only while current_size > the new limit"
             self.check("C03", "%s:eviction-necessity@%s" % (name, chain), st, cons, desc, info["loc"])
+
+    def unaccounted_growth(self, ip, st):
+        r = self.r
+        cands = [m for m in (ip.gset(st, "promoted") | ip.gset(st, "pending")) if isinstance(m, tuple) and m and m[0] == "E"]
+        if len(cands) != 1:
+            return Lin.const(0)
+        mv = st.store.get(cands[0])
+        if mv is None or mv[0] != "struct" or not is_int(mv[2].get(r.E_SIZE)):
+            return Lin.const(0)
+        k, v = mv[2].get(r.E_KEY), mv[2].get(r.E_VAL)
+        if not (k and v and k[0] == "opq" and v[0] == "opq"):
+            return Lin.const(0)
+        true_size = heap_of(ip, st, k[1]) + heap_of(ip, st, v[1]) + Lin.sym("sz[%s]" % ip.entry_ty_str())
+        return true_size - mv[2][r.E_SIZE][1]
 
     def incoming_size(self, ip, st, arg_vals):
         """entry_size of the (key, value) arguments: heap(key) + heap(value) + size_of::<Entry>()"""
@@ -432,6 +472,10 @@ class E3:
                            "a failing %s (%s) leaves current_size, max_size, the table's size sum and len untouched" % (name, var), loc)
                 same_tab = cf["tid"] == ("tid", 0)
                 self.rec("C10", "%s:exit[%s]:same-table" % (name, sig), same_tab, "a failing %s (%s) does not replace the table" % (name, var), loc)
+                # ... nor the usage order: no entry was spliced to the most-recently-used position on the way
+                moved = s.store.get(("G", "maypromoted"), frozenset())
+                self.rec("C10", "%s:exit[%s]:order-untouched" % (name, sig), not moved,
+                         "a failing %s (%s) has not moved any entry within the usage order" % (name, var), loc)
                 # the very pair comes back
                 kv_ok = pay.get("key") == arg_vals[1] and pay.get("value") == arg_vals[2]
                 self.rec("C10", "%s:exit[%s]:returns-the-pair" % (name, sig), kv_ok,
@@ -524,8 +568,13 @@ class E3:
                     # the accounted size of every tracked in-table entry equals heap(key)+heap(value)+size_of (entry invariant re-established)
                     bad = []
                     n = 0
+                    mutated = set(x for x in (ip.gset(s, "promoted") | ip.gset(s, "pending") | ip.gset(s, "found")) if isinstance(x, tuple))
                     for eo, ev in s.store.items():
-                        if eo[0] == "E" and ev[0] == "struct" and ev[1] == self.r.entry and ev[2].get("#dirty"):
+                        # entries whose size field was rewritten, and the entry the lookup found (rewritten or not: a path that leaves the
+                        # recorded size alone is right exactly if the measured size did not change)
+                        if eo[0] == "E" and ev[0] == "struct" and ev[1] == self.r.entry and (ev[2].get("#dirty") or eo in mutated) \
+                                and not (isinstance(ev[2].get("#tid"), tuple) and ev[2]["#tid"] and ev[2]["#tid"][0] in ("stale", "freed")
+                                         and not ev[2].get("#dirty")):
                             n += 1
                             inv = ip.entry_inv(s, ev[2].get(self.r.E_SIZE), ev[2].get(self.r.E_KEY), ev[2].get(self.r.E_VAL))
                             if inv is None or not s.num.entails(inv):
@@ -533,10 +582,10 @@ class E3:
                             if is_int(ev[2].get(self.r.E_SIZE)) and not s.num.entails(le(ev[2][self.r.E_SIZE][1], MS0)):
                                 bad.append("size>max:" + str(eo))
                     if n == 0:
-                        bad.append("no entry with a rewritten size is tracked at this exit")
+                        bad.append("neither the entry found by the lookup nor one with a rewritten size is tracked at this exit")
                     self.rec("C11", "mutate:exit[%s]:re-accounted" % sig, not bad,
                              "after a successful mutate the entry's recorded size is heap(key) + heap(value') + size_of::<Entry>() and <= max_size"
-                             " (%d rewritten entr%s checked)" % (n, "y" if n == 1 else "ies"), loc, {"violating": bad} if bad else None)
+                             " (%d entr%s checked)" % (n, "y" if n == 1 else "ies"), loc, {"violating": bad} if bad else None)
         for need in ("Ok(None)", "Ok(Some)", "Err(EntryTooLarge)"):
             if need not in seen:
                 self.rec("C11", "mutate:exit[%s]:missing" % need, False, "mutate has no exit of kind %s (found %s)" % (need, sorted(seen)), loc)
